@@ -61,6 +61,10 @@ pub enum Op {
     /// wait until this thread's own value number `seq` has been delivered to some consumer
     WaitDelivered { seq: u8 },
     Yield,
+    /// clone the sender, send `sends` values through the clone (retrying), drop the clone
+    WithCloneTx { tx: u16, sends: u8 },
+    /// clone the receiver (if it can be cloned), try to receive once through the clone, drop it
+    WithCloneRx { rx: u16, unsub: bool },
     /// solo-run probe (C18): freeze all other threads and run one try operation alone
     ProbeTrySend { tx: u16 },
     ProbeTryRecv { rx: u16 },
@@ -278,6 +282,11 @@ impl Shared {
     }
 }
 
+/// selector that always picks the last table entry
+fn sel_last() -> u16 {
+    65535
+}
+
 fn pick(sel: u16, len: usize) -> Option<usize> {
     if len == 0 {
         None
@@ -295,6 +304,8 @@ pub struct Ctx {
     sh: Arc<Shared>,
     spawned: Vec<u8>,
     sequential: bool,
+    /// ids of this thread's accepted values, in order
+    accepted_ids: Vec<u64>,
 }
 
 impl Ctx {
@@ -501,6 +512,9 @@ impl Ctx {
             ((out, back), Res::Send(out, orig.id))
         });
         self.check_handback(orig, &r.0);
+        if r.0 == SendOut::Ok {
+            self.accepted_ids.push(orig.id);
+        }
         r
     }
 
@@ -520,6 +534,9 @@ impl Ctx {
         self.check_handback(orig, &r.0);
         if matches!(r.0, SendOut::NotReady(_)) {
             self.sh.lock().stats.not_ready_send += 1;
+        }
+        if r.0 == SendOut::Ok {
+            self.accepted_ids.push(orig.id);
         }
         r
     }
@@ -620,7 +637,14 @@ impl Ctx {
                     if self.sequential || !self.rxs[i].rx.is_futures() {
                         return RecvOut::Empty;
                     }
+                    sched().set_activity(Act {
+                        kind: crate::oracles::ACT_PARKED_STREAM,
+                        handle: self.rxs[i].id,
+                        stream: self.rxs[i].stream,
+                        op_idx: self.op_idx,
+                    });
                     sched().park();
+                    sched().set_activity(Act::default());
                 }
                 o => return o,
             }
@@ -714,7 +738,16 @@ impl Ctx {
             };
             match out {
                 RecvOut::Val(_) => {}
-                RecvOut::Empty => sched().harness_yield(),
+                RecvOut::Empty => {
+                    sched().set_activity(Act {
+                        kind: crate::oracles::ACT_TRY_DRAIN,
+                        handle: self.rxs[i].id,
+                        stream: self.rxs[i].stream,
+                        op_idx: self.op_idx,
+                    });
+                    sched().harness_yield();
+                    sched().set_activity(Act::default());
+                }
                 RecvOut::End => break,
             }
         }
@@ -773,7 +806,14 @@ impl Ctx {
                                 if self.sh.lock().live_receivers <= 0 {
                                     break;
                                 }
+                                sched().set_activity(Act {
+                                    kind: crate::oracles::ACT_SEND_RETRY,
+                                    handle: self.txs[i].id,
+                                    stream: u32::MAX,
+                                    op_idx: self.op_idx,
+                                });
                                 sched().harness_yield();
+                                sched().set_activity(Act::default());
                             }
                             _ => break,
                         }
@@ -797,7 +837,14 @@ impl Ctx {
                         match out {
                             SendOut::NotReady(_) if !self.sequential => {
                                 v = back.unwrap();
+                                sched().set_activity(Act {
+                                    kind: crate::oracles::ACT_PARKED_SINK,
+                                    handle: self.txs[i].id,
+                                    stream: u32::MAX,
+                                    op_idx: self.op_idx,
+                                });
                                 sched().park();
+                                sched().set_activity(Act::default());
                             }
                             SendOut::Full(_) if !self.sequential => {
                                 v = back.unwrap();
@@ -1112,6 +1159,7 @@ impl Ctx {
                         sh,
                         spawned: Vec::new(),
                         sequential,
+                        accepted_ids: Vec::new(),
                     };
                     c.run_prog();
                 });
@@ -1126,8 +1174,10 @@ impl Ctx {
                 }
             }
             Op::WaitDelivered { seq } => {
-                let id = ((self.prog as u64) << 32) | *seq as u64;
-                if (*seq as u32) < self.seq {
+                // the seq-th value of this thread that was accepted (counted from the end: 0 = the latest)
+                let k = *seq as usize;
+                if k < self.accepted_ids.len() {
+                    let id = self.accepted_ids[self.accepted_ids.len() - 1 - k];
                     let g = {
                         let mut l = self.sh.lock();
                         if l.delivered.contains(&id) {
@@ -1146,6 +1196,28 @@ impl Ctx {
                 }
             }
             Op::Yield => sched().harness_yield(),
+            Op::WithCloneTx { tx, sends } => match pick(*tx, self.txs.len()) {
+                Some(i) if self.txs.len() < 6 => {
+                    self.exec(&Op::CloneTx { tx: *tx });
+                    let last = self.txs.len() - 1;
+                    debug_assert!(last != i);
+                    let s = sel_last();
+                    for _ in 0..*sends {
+                        self.exec(&Op::Send { tx: s, max: 0 });
+                    }
+                    self.drop_tx(last, false);
+                }
+                _ => self.skip(),
+            },
+            Op::WithCloneRx { rx, unsub } => match pick(*rx, self.rxs.len()) {
+                Some(i) if self.rxs[i].rx.can_clone() && self.rxs.len() < 8 => {
+                    self.exec(&Op::CloneRx { rx: *rx });
+                    let last = self.rxs.len() - 1;
+                    self.do_try_recv(last);
+                    self.drop_rx(last, *unsub);
+                }
+                _ => self.skip(),
+            },
             Op::ProbeTrySend { tx } => match pick(*tx, self.txs.len()) {
                 Some(i) => {
                     let v = self.new_value();
@@ -1330,6 +1402,7 @@ pub fn run_scenario(sc: &Scenario) -> Execution {
             sh: sh2.clone(),
             spawned: Vec::new(),
             sequential,
+            accepted_ids: Vec::new(),
         };
         c.run_prog();
     });
